@@ -2,7 +2,7 @@
    Any field; every N, every bandwidth J, all values including the documented 'ignored' slots. *)
 From mathcomp Require Import all_ssreflect all_algebra.
 From TinyGP Require Import Base.Ops Base.LMat Model.QSMCore Model.Noise
-  Theory.MxRefine Theory.QSMDen Theory.QSMMatmul Theory.NoiseThy.
+  Theory.MxRefine Theory.QSMDen Theory.QSMMatmul Theory.NoiseThy Theory.Scatter.
 Set Implicit Arguments. Unset Strict Implicit. Unset Printing Implicit Defensive.
 Import GRing.Theory.
 Local Open Scope ring_scope.
@@ -44,3 +44,9 @@ Theorem C11_dense_views (F : fieldType) sq lt n c (v k y : mat F) :
   mx_of n n (nadd (fops sq lt) (NDense n v) k) = mx_of n n v + mx_of n n k.
 Proof. split; [exact: dense_matmul | exact: dense_add]. Qed.
 Print Assumptions C11_dense_views.
+
+(* the `+` view of the diagonal model: scatter-add on diag_indices adds exactly the diagonal matrix *)
+Theorem C11_diagonal_add (F : fieldType) sq lt n (d : vec F) (k : mat F) : size d = n ->
+  mx_of n n (nadd (fops sq lt) (NDiagonal n d) k) = mx_of n n k + diag_mx (rv_of n d).
+Proof. exact: diagonal_add. Qed.
+Print Assumptions C11_diagonal_add.
